@@ -736,6 +736,9 @@ func extractC14(c *ctxT) {
 			return true
 		})
 	}
+	sb.WriteString("/-- the rejecting checks of `DistrStakingMigrate.Validate` in source order (a program the model interprets) -/\n")
+	sb.WriteString("def stakingValidateProgram : List String := " + q(checks) + "\n")
+	c.facts["C14.stakingValidateProgram"] = append([]string{}, checks...)
 	sort.Strings(checks)
 	sb.WriteString("/-- rejecting checks found in `DistrStakingMigrate.Validate` -/\n")
 	sb.WriteString("def stakingValidateChecks : List String := " + q(checks) + "\n\n")
